@@ -56,6 +56,17 @@ CHECKS = {
         note=('The generator is the reference (names unique across scopes). Types are compared through a summary (prefixes, base '
               'kind, bounds, array sizes, record fields), expressions through canonical trees. LSC templates are not generated.'),
     ),
+    'C05': dict(
+        engine='oracle-server + Hypothesis model generator (harness/py/prop_C05.py)',
+        technique='differential testing of the two front ends: the same abstract model rendered as XML and as XTA, parsed through the Document* overloads, documents/diagnostic multisets/verdicts compared; one injected fault per model in a third of the cases',
+        category='exploration',
+        text=('The XML reader path and the XTA grammar path (ProcDecl/States/Transitions incl. the chained -> form, commit/urgent '
+              'lists, -u->) must produce the same declarations, templates, locations, flags, edges, labels, processes, the same '
+              'multiset of error and warning messages and the same supported-methods verdict for every generated model of the '
+              'common subset, clean or carrying one fault.'),
+        design_ref='DESIGN.md 4/C05',
+        note='Positions, paths and edge action names are not compared. Only 4.x syntax is generated.',
+    ),
     'C18': dict(
         engine='rapidcheck + exhaustive loops (harness/cpp/c18.cpp)',
         technique='exhaustive enumeration over int8_t + rapidcheck property-based testing over int32_t/double against set semantics in wide arithmetic',
